@@ -141,8 +141,8 @@ func (s *gsched) ioExit() {
 func (s *gsched) freeze() {
 	s.mu.Lock()
 	s.frozen = true
-	deadline := time.Now().Add(20 * time.Second)
-	for s.inflight > 0 && time.Now().Before(deadline) {
+	sw := h.NewStopwatch()
+	for s.inflight > 0 && sw.Elapsed() < 20*time.Second {
 		s.mu.Unlock()
 		time.Sleep(200 * time.Microsecond)
 		s.mu.Lock()
@@ -209,12 +209,12 @@ func (s *gsched) setFree(r *grole) {
 // settle waits until the role is parked or has finished; after the timeout it is taken to be blocked on a lock
 // (it will arrive at a gate, or finish, once another role lets go).
 func (s *gsched) settle(r *grole, timeout time.Duration) int {
-	t0 := time.Now()
+	sw := h.NewStopwatch()
 	for {
 		s.mu.Lock()
 		st := r.state
 		s.mu.Unlock()
-		if st != gRunning || time.Since(t0) > timeout {
+		if st != gRunning || sw.Elapsed() > timeout {
 			return st
 		}
 		time.Sleep(20 * time.Microsecond)
@@ -466,7 +466,7 @@ func (g *genRun) observe() (vals []int, keys []int, geterr string, ok bool) {
 	select {
 	case <-done:
 		return vals, keys, geterr, true
-	case <-time.After(3 * time.Second):
+	case <-h.After(3 * time.Second):
 		// a reader blocked behind a parked role: no observation here (it finishes later, unobserved)
 		g.stats["observation_skipped"]++
 		return nil, nil, "", false
@@ -526,7 +526,7 @@ func (g *genRun) backup() {
 	case out := <-done:
 		g.stats["backups"]++
 		g.en.T.Emit(h.Ev{"ev": "view", "vals": out.vals, "keys": out.keys, "geterr": out.geterr, "src": "backup"})
-	case <-time.After(3 * time.Second):
+	case <-h.After(3 * time.Second):
 		// blocked behind a parked role that holds the database lock: no observation here
 		g.stats["backup_skipped"]++
 	}
@@ -650,7 +650,7 @@ func (g *genRun) fault(proc bool, x []int, torn bool) {
 			if or.db != nil {
 				g.olds = append(g.olds, or.db)
 			}
-		case <-time.After(10 * time.Second):
+		case <-h.After(10 * time.Second):
 		}
 	}
 	if g.db != nil {
@@ -687,7 +687,7 @@ func (g *genRun) releaseBatch() {
 	}()
 	select {
 	case <-done:
-	case <-time.After(5 * time.Second):
+	case <-h.After(5 * time.Second):
 	}
 	g.bopen = false
 }
@@ -702,7 +702,7 @@ func (g *genRun) closeOlds() {
 		}()
 		select {
 		case <-done:
-		case <-time.After(5 * time.Second):
+		case <-h.After(5 * time.Second):
 		}
 	}
 	g.olds = nil
